@@ -225,6 +225,17 @@ def term_systematic(tier, rng):
             steps = copy.deepcopy(path)
             steps[i]["stale"] = 1
             behs.append({"cfg": cfg, "steps": pre + steps + SETTLE, "tag": "stale:%s:%d" % (name, i)})
+        # a permanent error: the call fails in every reconcile from the start of the termination on; nothing may be
+        # finalized by giving up (the Settle tail cannot complete - that is the expected outcome)
+        if kind == "registered":
+            for ctl, calls in (("lc", LC_CALLS), ("nt", NT_CALLS)):
+                for call in calls:
+                    actor = "nodeclaim.lifecycle" if ctl == "lc" else "node.termination"
+                    faults, pd, pg = fault_plan(ctl, call, 0, "Server")
+                    perm = [dict(f, actor=actor) for f in faults] + ([{"actor": actor, "verb": "provDelete", "kind": "-", "sub": "-", "err": "-"}] if pd else []) \
+                        + ([{"actor": actor, "verb": "provGet", "kind": "-", "sub": "-", "err": "-"}] if pg else [])
+                    behs.append({"cfg": dict(cfg, perm=perm), "steps": pre + [{"a": "PermOn"}] + path + SETTLE,
+                                 "tag": "permanent:%s:%s.%s" % (name, ctl, call)})
         # faults in the launch prelude itself (before deletion): every lifecycle write of the launching reconcile
         for f in (api("patch", "NodeClaim", "-", 1), api("patch", "NodeClaim", "-", 2), api("patch", "NodeClaim", "status", 1)):
             for restart in (False, True):
